@@ -83,6 +83,17 @@ def run(ctx):
   for ci, (a, m_small, m_big) in enumerate([(1.0, 3000, 0), (1.0, 6000, 30), (0.25, 5000, 5), (2.0, 1000, 200)]):
     vec = np.concatenate([np.full(m_small, a), np.full(m_small, -a), np.full(m_big, 40 * a), np.full(m_big, -40 * a), [0.5 * a] * 4000, [-0.5 * a] * 4000]).astype(np.float32)
     sigma = float(np.std(vec.astype(np.float64)))
+    if ci == 0:
+      # leaves whose mean is far larger than their spread (sigma must come from the deviations, not from E[v^2] - E[v]^2):
+      # every entry lies far outside 2.5 sigma, so all are clipped to +-2.5 sigma =: s and the output is sign(v) * s everywhere
+      for base_v in (10000.0, -3000.0):
+        lv = (base_v + np.tile(np.arange(8, dtype=np.float64), 500)).astype(np.float32)
+        sg = float(np.std(lv.astype(np.float64)))
+        outl = np.asarray(cp.terngrad_quantize(jnp.array(lv), jax.random.fold_in(kbase, 2000 + int(abs(base_v)))), np.float64)
+        replayed += 1
+        if not np.all(np.isfinite(outl)) or not np.allclose(outl, np.sign(base_v) * 2.5 * sg, rtol=1e-3):
+          ctx.violation('terngrad:large-mean', f'TernGrad on a leaf {base_v} + (0..7): every entry exceeds 2.5 sigma = {2.5 * sg}, the output must be that value with the input sign; '
+                        f'got values {sorted(set(np.round(outl, 4).tolist()))[:4]}', replay={'base': base_v})
     clipped = np.clip(vec.astype(np.float64), -2.5 * sigma, 2.5 * sigma)
     s = float(np.max(np.abs(clipped)))
     out = np.asarray(cp.terngrad_quantize(jnp.array(vec), jax.random.fold_in(kbase, 1000 + ci)), np.float64)
@@ -166,6 +177,21 @@ def run(ctx):
       nagg += 1
       if np.array_equal(np.asarray(a['w']), np.asarray(b_['w'])):
         ctx.violation(f'agg:{name}:same-randomness-across-clients', f'{name}: two clients of one round are quantized with the same randomness', replay={'aggregator': name})
+    # one-pass inputs: a generator / map over the clients gives the same aggregate and state as the list
+    st0 = agg.init()
+    listed = [(b'c%d' % i, t, w) for i, (t, w) in enumerate(zip(trees, weights))]
+    ref, ref_state = agg.apply(listed, st0)
+    for kind, src in (('generator', (x for x in listed)), ('map', map(lambda x: x, listed)), ('iterator', iter(listed))):
+      nagg += 1
+      try:
+        got, got_state = agg.apply(src, st0)
+      except Exception as ex:  # pylint: disable=broad-except
+        ctx.violation(f'agg:{name}:one-pass-input', f'{name}: {type(ex).__name__}: {str(ex)[:120]} when the clients come from a {kind}', replay={'aggregator': name, 'input': kind})
+        continue
+      same_out = all(np.array_equal(np.asarray(a), np.asarray(b_)) for a, b_ in zip(jax.tree_util.tree_leaves(got), jax.tree_util.tree_leaves(ref)))
+      if not same_out or float(got_state.num_bits) != float(ref_state.num_bits):
+        ctx.violation(f'agg:{name}:one-pass-input', f'{name}: the aggregate (or the bit count) differs when the same clients come from a {kind} instead of a list',
+                      replay={'aggregator': name, 'input': kind})
     # every (round, client position) slot draws with its own randomness: identical trees, one-hot weights isolate the
     # quantised value of one slot; the state is threaded through three rounds
     if name != 'drive':
